@@ -129,6 +129,9 @@ PROPS["C10"] += [
     H("test_function", "c10_%s_in_cmp" % k, funcs=["query::comparison::Comparison::process", "query::comparable::Comparable::process (Function)", "query::test_function::TestFunction::apply", "query::test_function::" + k],
       symbolic=sym, shape="%s(@) == c through Comparison::process" % k, est=15)
     for k, sym in (("length", "array length 0..2, constant c"), ("count", "constant c"), ("value", "constant c"))
+] + [
+    H("test_function", "c10_length_literal_in_cmp", funcs=["query::test_function::length", "query::comparable::Literal::process", "query::comparison::Comparison::process"],
+      symbolic="string literal of one ASCII and one 2-byte scalar (any content), constant c", shape="length(<literal>) == c", est=15),
 ]
 PROP_INFO["C10"] = {
     "bounds": "length: strings of 0..3 scalars at the listed UTF-8 width patterns (any content), arrays/objects <= 3 entries, every scalar kind, empty nodelist; count/value: nodelists of 0..3 nodes, single node, nothing",
@@ -167,6 +170,10 @@ PROPS["C05"] = [
       symbolic="member value payload, negation flag", shape="child {a|b: %s}, test ?@.a / ?!@.a" % k, est=40)
     for k in ("null", "false", "int", "str", "empty_arr", "arr", "empty_obj", "missing")
 ] + [
+    H("filter", "c05_exist_wild_" + k, funcs=["query::atom::FilterAtom::process", "query::test::Test::process", "query::selector::process_wildcard"],
+      symbolic="children payloads, negation flag", shape="child array of %s elements, test ?@.* / ?!@.*" % k[1:], est=20)
+    for k in ("n0", "n2")
+] + [
     H("filter", "c05_select_arr_" + k, funcs=_C05F, symbolic="3 elements (any i64), constant c in I-JSON", shape="array of 3, predicate @ %s c" % k, est=200, timeout=900)
     for k in ("gt", "eq")
 ] + [
@@ -195,6 +202,9 @@ _C01 = [
 ] + [
     H("selector", "c01_name_" + k, funcs=[_SEL[1], "query::selector::normalize_json_key"], symbolic="member values", shape="object {a,b,ab}, name '%s'" % k, est=8)
     for k in ("a", "b", "ab", "ba", "c", "empty")
+] + [
+    H("selector", "c01_name_" + k, funcs=[_SEL[1], "query::selector::normalize_json_key"], symbolic="member values", shape="object with 2-, 3+3- and 4-byte UTF-8 names; name " + k, est=8)
+    for k in ("u2", "u3", "u4", "u3_prefix")
 ]
 _C02 = [
     H("state", "c02_reduce_" + k, funcs=["query::state::Data::reduce"], symbolic="node payloads", shape="operands " + k, est=5)
